@@ -257,8 +257,8 @@ Proof.
   unfold step_main. intro H.
   destruct pc; simpl in H;
     repeat match type of H with
-           | (if ?c then _ else _) = _ => destruct c
-           | match ?c with _ => _ end = _ => destruct c
+           | (if ?c then _ else _) = _ => destruct c eqn:?
+           | match ?c with _ => _ end = _ => destruct c eqn:?
            end;
     try discriminate; inversion H; subst; simpl; repeat split; eauto.
 Qed.
@@ -275,9 +275,155 @@ Proof.
   unfold step_proc. intro H. destruct pr as [o src pc]. simpl in H.
   destruct pc as [|m r|m r|[d ks] r|r|r|r| | | |]; simpl in H;
     repeat match type of H with
-           | (if ?c then _ else _) = _ => destruct c
-           | match ?c with _ => _ end = _ => destruct c
+           | (if ?c then _ else _) = _ => destruct c eqn:?
+           | match ?c with _ => _ end = _ => destruct c eqn:?
            end;
     try discriminate; inversion H; subst; simpl; repeat split; eauto;
     unfold a_close_quiet; destruct (sp_quiet (st_pool s)); reflexivity.
+Qed.
+
+Ltac step_cases H :=
+  repeat match type of H with
+         | match (match ?c with _ => _ end) with _ => _ end = _ => destruct c eqn:?
+         | (if ?c then _ else _) = _ => destruct c eqn:?
+         | match ?c with _ => _ end = _ => destruct c eqn:?
+         end;
+  try discriminate H; inversion H; subst; clear H.
+
+Lemma take_first_spec a b l q l' :
+  take_first a b l = Some (q, l') ->
+  q_src q = a /\ q_dst q = b /\ In q l /\ (forall x, In x l' -> In x l) /\
+  length l = S (length l') /\ forall f : qmsg -> nat, sumn f l = f q + sumn f l'.
+Proof.
+  revert q l'; induction l as [|x l IH]; intros q l' H; simpl in H; [discriminate|].
+  destruct ((q_src x =? a) && (q_dst x =? b)) eqn:E.
+  - inversion H; subst. apply andb_true_iff in E as [E1 E2].
+    apply Nat.eqb_eq in E1, E2. simpl. repeat split; auto.
+  - destruct (take_first a b l) as [[y r]|] eqn:T; [|discriminate].
+    inversion H; subst. destruct (IH _ _ eq_refl) as (H1 & H2 & H3 & H4 & H5 & H6).
+    simpl. repeat split; auto.
+    + intros z [Hz|Hz]; auto.
+    + intro f. rewrite (H6 f). lia.
+Qed.
+
+Lemma take_first_none a b l :
+  take_first a b l = None -> forall q, In q l -> q_src q = a -> q_dst q = b -> False.
+Proof.
+  induction l as [|x l IH]; simpl; intros H q Hq Ha Hb; [contradiction|].
+  destruct ((q_src x =? a) && (q_dst x =? b)) eqn:E; [discriminate|].
+  destruct (take_first a b l) as [[y r]|] eqn:T; [discriminate|].
+  destruct Hq as [->|Hq]; [|eapply IH; eauto].
+  rewrite Ha, Hb, !Nat.eqb_refl in E. discriminate.
+Qed.
+
+Lemma step_main_lens s i pc s' :
+  step_main s i pc = Some s' ->
+  length (st_main s') = length (st_main s) /\ length (st_wake s') = length (st_wake s) /\
+  length (st_awake s') = length (st_awake s) /\ length (st_closed s') = length (st_closed s) /\
+  length (sp_pool (st_pool s')) = length (sp_pool (st_pool s)).
+Proof.
+  unfold step_main. intro H.
+  destruct pc; simpl in H; unfold a_set_body, a_lock, a_close_ready, a_close_quiet in H;
+    step_cases H; simpl; rewrite ?upd_length;
+    repeat match goal with |- context[if ?c then _ else _] => destruct c end;
+    simpl; rewrite ?upd_length; auto.
+Qed.
+
+Lemma InvL_step W s t s' : Inv W s -> step s t = Some s' -> InvL s'.
+Proof.
+  intros [L _ _ _ _] H. destruct L as [Ln Lm Lw La Lc Lb Lp Lf Le].
+  destruct t as [i|k|]; simpl in H.
+  - destruct (nth_error (st_main s) i) as [pc|] eqn:Hi; [|discriminate].
+    destruct (step_main_frame _ _ _ _ H) as (F1 & F2 & F3 & _).
+    destruct (step_main_lens _ _ _ _ H) as (G1 & G2 & G3 & G4 & G5).
+    constructor; rewrite ?F1, ?F2, ?F3; try congruence; auto.
+  - destruct (nth_error (st_proc s) k) as [pr|] eqn:Hk; [|discriminate].
+    destruct (step_proc_frame _ _ _ _ H) as (F1 & F2 & F3 & F4 & F5 & _ & _ & _ & F6 & _ & pc' & F7).
+    destruct (Lp _ _ Hk) as [Lo Ls].
+    constructor; rewrite ?F1, ?F2, ?F3, ?F4, ?F5, ?F6; auto.
+    + rewrite F7. intros k' p'. rewrite nth_error_upd.
+      destruct ((k' =? k) && (k <? length (st_proc s))); [|apply Lp].
+      intro E; inversion E; subst; simpl. auto.
+    + (* messages in flight keep valid end points *)
+      clear F7 pc'. unfold step_proc in H. destruct pr as [o src pc]. simpl in *.
+      destruct pc as [|m r|m r|[d ks] r|r|r|r| | | |]; simpl in H; step_cases H; simpl; auto.
+      * intros x0 Hx0. apply Lf. eapply take_first_spec; eauto.
+      * intros x0 Hx0. apply Lf. eapply take_first_spec; eauto.
+      * intros x0 Hx0. apply in_app_or in Hx0 as [Hx0|[<-|[]]]; auto. simpl. split; auto.
+        apply Nat.mod_upper_bound. lia.
+    + rewrite F7. intros a b Ha Hb. destruct (Le a b Ha Hb) as (k' & p' & E1 & E2 & E3).
+      destruct (Nat.eq_dec k' k) as [->|Hne].
+      * exists k, (mkProc (p_owner pr) (p_src pr) pc'). rewrite nth_error_upd_eq.
+        -- rewrite Hk in E1. inversion E1; subst. auto.
+        -- eapply nth_error_lt; eauto.
+      * exists k', p'. rewrite nth_error_upd_neq; auto.
+  - destruct (st_cancel s); [discriminate|]. inversion H; subst. constructor; simpl; auto.
+Qed.
+
+(* ---- InvA: the counters --------------------------------------------------------------------- *)
+
+Lemma std_done_spec i l k p :
+  std_done i l = true -> nth_error l k = Some p -> p_src p = None -> p_owner p = i -> p_pc p = PEnd.
+Proof.
+  unfold std_done. intros H Hk Hs Ho. rewrite forallb_forall in H.
+  specialize (H p (nth_error_In _ _ Hk)). rewrite Hs, Ho, Nat.eqb_refl in H. simpl in H.
+  destruct (p_pc p); try discriminate. reflexivity.
+Qed.
+
+Lemma rec_done_spec i l k p a :
+  rec_done i l = true -> nth_error l k = Some p -> p_src p = Some a -> p_owner p = i -> p_pc p = PEnd.
+Proof.
+  unfold rec_done. intros H Hk Hs Ho. rewrite forallb_forall in H.
+  specialize (H p (nth_error_In _ _ Hk)). rewrite Hs, Ho, Nat.eqb_refl in H. simpl in H.
+  destruct (p_pc p); try discriminate. reflexivity.
+Qed.
+
+(* a goroutine that can still send holds the pool away from zero *)
+Lemma busy_pos s k p :
+  InvA s -> nth_error (st_proc s) k = Some p ->
+  match p_pc p with PRecv | PEnd | PFin2 | PFin3 => False | _ => True end ->
+  1 <= sumn mpend (st_main s) + sumn phold (st_proc s).
+Proof.
+  intros A Hk Hpc.
+  pose proof (sumn_ge phold _ _ _ Hk) as G.
+  destruct p as [o [a|] pc].
+  - unfold phold in G. simpl in G. destruct pc; simpl in *; try contradiction; lia.
+  - assert (Hm : nth_error (st_main s) o = Some MWaitStd).
+    { apply (ia_std _ A k (mkProc o None pc) Hk eq_refl). simpl. destruct pc; simpl in Hpc; try contradiction; discriminate. }
+    pose proof (sumn_ge mpend _ _ _ Hm) as G'. simpl in G'. lia.
+Qed.
+
+Lemma InvA_step_main W s i pc s' :
+  Inv W s -> nth_error (st_main s) i = Some pc -> step_main s i pc = Some s' -> InvA s'.
+Proof.
+  intros [L A B C D] Hi H.
+  assert (Hstd : forall k p, nth_error (st_proc s') k = Some p -> p_src p = None -> p_pc p <> PEnd ->
+                 nth_error (st_main s') (p_owner p) = Some MWaitStd).
+  { destruct (step_main_frame _ _ _ _ H) as (_ & F2 & _ & _ & _ & _ & pc' & F7).
+    rewrite F2, F7. intros k p Hk Hs Hp.
+    pose proof (ia_std _ A k p Hk Hs Hp) as Hm.
+    destruct (Nat.eq_dec (p_owner p) i) as [E|E].
+    - rewrite E in Hm. rewrite Hi in Hm. inversion Hm; subst pc.
+      simpl in H. destruct (std_done i (st_proc s)) eqn:Sd; [|discriminate].
+      exfalso. apply Hp. eapply std_done_spec; eauto.
+    - rewrite nth_error_upd_neq; auto. }
+  destruct A as [Ai As Az Ad At]. unfold nD2, nD3 in *.
+  pose proof (fun x => sumn_upd mpend i x pc _ Hi) as U1.
+  pose proof (fun x => sumn_upd md2 i x pc _ Hi) as U2.
+  pose proof (fun x => sumn_upd md3 i x pc _ Hi) as U3.
+  unfold step_main in H.
+  destruct pc; simpl in H; unfold a_lock, a_set_body, a_close_ready, a_close_quiet, a_unlock in H;
+    simpl in H; step_cases H;
+    (constructor; [ | exact Hstd | | | ]); clear Hstd; unfold nD2, nD3;
+    destruct (sp_zero (st_pool s)) eqn:Ez; destruct (sp_quiet (st_pool s)) eqn:Eq;
+    simpl in *; rewrite ?Ez, ?Eq; simpl;
+    repeat match goal with
+           | |- context[sumn ?f (upd i ?x (st_main s))] =>
+             match f with
+             | mpend => let U := fresh in pose proof (U1 x) as U; simpl in U; revert U
+             | md2 => let U := fresh in pose proof (U2 x) as U; simpl in U; revert U
+             | md3 => let U := fresh in pose proof (U3 x) as U; simpl in U; revert U
+             end;
+             generalize (sumn f (upd i x (st_main s)))
+           end; intros; try lia.
 Qed.
